@@ -40,7 +40,8 @@ def block_lines(b, i):
     if k == "code":
         return ["```", f"C{i}x", "```"]
     if k == "list":
-        return [f"- L{i}x", "- second"]
+        mk = "-" if i % 2 else "*"          # adjacent lists with the same marker would merge into one
+        return [f"{mk} L{i}x", f"{mk} second"]
     if k == "cdir":
         return [":::{tip}", f"D{i}x", ":::"]
     if k == "def":
